@@ -357,7 +357,19 @@ impl CursorTracker for CursorTrackerImpl<'_> {
                     newlines_after_cursor,
                 } => {
                     let mut lines_back = newlines_after_cursor.min(fmt.newlines_before);
-                    if lines_back > 0 {
+                    if fmt.is_ignored() && newlines_after_cursor > 0 {
+                        // The original whitespace is kept as it is (its line breaks need not be
+                        // the configured ones): keep the cursor at the start of the line it was on.
+                        let ws = tok.get_leading_whitespace();
+                        let line_breaks = ws.matches('\n').count();
+                        let breaks_before_cursor =
+                            line_breaks.saturating_sub(newlines_after_cursor as usize);
+                        let pos_in_ws = match breaks_before_cursor {
+                            0 => 0,
+                            n => ws.match_indices('\n').nth(n - 1).map_or(0, |(i, _)| i + 1),
+                        };
+                        (new_token_offset - ws.len() + pos_in_ws) as u32
+                    } else if lines_back > 0 {
                         // The cursor was on a blank line. Keep it there at column 0.
                         if fmt.newlines_before <= newlines_after_cursor && fmt.newlines_before > 1 {
                             // the line that the cursor was on is no longer there, move it to the next line
